@@ -709,9 +709,9 @@ Section Ord.
                              repeat split; reflexivity ].
   Ltac okk :=
     lazymatch goal with
-    | |- okspec2 _ => split; [reflexivity|discriminate]
+    | |- okspec2 _ => split; [reflexivity|first [discriminate | cbn [sp_cls]; unfold CLS_CUSTOM, CLS_RECEIVED, CLS_EXCEPTION; destruct (_ =? 99)%nat; lia]]
     | |- True => exact I
-    | |- _ /\ _ => split; [unfold H_CUSTOM, H_RECEIVED; lia|unfold CLS_CUSTOM, CLS_READY; lia]
+    | |- _ /\ _ => split; [unfold H_CUSTOM, H_RECEIVED; lia|unfold CLS_CUSTOM, CLS_READY, CLS_EXCEPTION; destruct (_ =? 99)%nat; lia]
     end.
   Ltac hd t := lazymatch t with ?f _ => hd f | _ => t end.
   Ltac safe_step :=
